@@ -77,11 +77,20 @@ impl fdl::FdlApplication for TrafficApp {
         let len = self.rng.usize(self.max_len + 1);
         let payload = self.rng.bytes(len);
         let req = if self.srd {
-            if self.rng.bool() { fdl::RequestType::SrdLow } else { fdl::RequestType::SrdHigh }
-        } else if self.rng.bool() {
-            fdl::RequestType::SdnLow
+            // acknowledged / answered services
+            *self.rng.pick(&[
+                fdl::RequestType::SrdLow,
+                fdl::RequestType::SrdHigh,
+                fdl::RequestType::SrdLow,
+                fdl::RequestType::SrdHigh,
+                fdl::RequestType::MulticastSrd,
+                fdl::RequestType::SdaLow,
+                fdl::RequestType::SdaHigh,
+                fdl::RequestType::Ident,
+                fdl::RequestType::LsapStatus,
+            ])
         } else {
-            fdl::RequestType::SdnHigh
+            *self.rng.pick(&[fdl::RequestType::SdnLow, fdl::RequestType::SdnHigh, fdl::RequestType::SdnLow, fdl::RequestType::SdnHigh, fdl::RequestType::TimeEvent, fdl::RequestType::ClockValue])
         };
         if self.srd {
             self.outstanding = Some(da);
